@@ -73,6 +73,40 @@ CLAIMED = {
                 "before/after a link combine as 'new cell = union of two old cells' (cell calculus) — evaluated by the oracle on the real code.",
         "design_ref": "DESIGN.md §7 C04",
     },
+    "C09": {
+        "text": "Lean 4 theorems at token level: for every WF 2-map (any size below 2^32 darts) load(serialize m) returns a map with the same "
+                "dart count, beta images, removal flags and vertex values on every vertex id, and re-serialising reproduces the token "
+                "lines (numeral round trip proved from core lemmas; coordinate tokens proved for rationals up to 18 digits). Tie: the real "
+                "serializer output is tokenised and compared with the model's tokens, the rebuilt real map is snapshotted and compared; "
+                "byte-identical second serialisation and bit-identical coordinates (f32/f64, +-0, subnormals, +-inf, column-width sizes "
+                "9/10/99/100/999/1000) are checked on the implementation directly.",
+        "note": "Trusted: Lean kernel + 3 standard axioms; hand-written token-level model; character-level formatting and float "
+                "printing/parsing (std::fmt, str::parse) are validated, not proved.",
+        "design_ref": "DESIGN.md §7 C09",
+    },
+    "C10": {
+        "text": "Lean 4 theorems: the loader model (mirroring build_2d_from_cmap_file) is proved UNSOUND by nine concrete negation witnesses "
+                "(one per failure class: out-of-range image, non-inverse b0/b1, asymmetric b2, ignored null column, linked/repeated unused "
+                "id -> panic, id >= n -> panic, vertex on null/removed dart), and SOUND under the explicit validator validFile (for all "
+                "sizes: validFile f -> build f = ok m with WF 3 m agreeing with the text, no panic). Tie: mutation streams and random "
+                "texts on the real loader vs the model; oracle on the real result (error, or WF map agreeing with the text). The seven "
+                "failure classes are genuine defects recorded as known findings D5a-D5g (each with its own matcher).",
+        "note": "Trusted: Lean kernel + 3 standard axioms; hand-written model. The property is FALSE on the current tree (known findings "
+                "D5a-g, not repaired: the repair is a validation pass of ~50 lines, judged too invasive for this round); any failure outside "
+                "those classes is a violation.",
+        "design_ref": "DESIGN.md §7 C10, §8 D5",
+    },
+    "C12": {
+        "text": "Lean 4 theorems for ALL nx, ny(, nz) >= 1 over the beta tables REGENERATED from grid.rs on every run (tools/gen_lean.py): WF of "
+                "the 2-D grid, split grid and 3-D hex grid; b2 null iff boundary side else the facing dart of the adjacent cell; faces = "
+                "b1-cycles in bijection with cells; vertex ids <-> lattice points with exact coordinates origin+(i lx, j ly) over Rat; CCW "
+                "faces of area lx*ly (lx*ly/2); hex cells and b3 gluing; descriptor parsing errors exactly on missing/non-positive "
+                "parameters and agreement of the three descriptor forms; zero count (after the fix: commit 9dd602d). Tie: exhaustive size "
+                "boxes on the real builders vs the model (full snapshots) + independent Python oracle.",
+        "note": "Trusted: Lean kernel + 3 standard axioms; translator gen_lean.py (regex-level, fails loudly); hand-written builder loops. "
+                "Not proved: 3-D vertex coordinates, float ceil/division in the third descriptor form (validated by the oracle).",
+        "design_ref": "DESIGN.md §7 C12, §3.4",
+    },
 }
 
 REASONS_NOT_YET = "check not built yet in this round (planned, see DESIGN.md §7); no claim is made"
